@@ -79,8 +79,10 @@ def _fp(v, h):
         else:
             h.update(np.ascontiguousarray(v).tobytes())
     elif isinstance(v, np.generic):
-        h.update(b"G")
+        # a NumPy scalar and the 0-d array of the same value are the same block value
+        h.update(b"A")
         h.update(str(v.dtype).encode())
+        h.update(b"()")
         h.update(v.tobytes())
     elif isinstance(v, (list, tuple)):
         h.update(b"L" if isinstance(v, list) else b"T")
